@@ -175,6 +175,8 @@ def generate(seed, tier):
                          for _ in range(rw.randrange(1, 3))]
     if mode == "csd" and rw.random() < 0.3:
         sc["rows_of_recording"] = rw.randrange(1, 2 ** 31)
+    if rw.random() < 0.15:
+        sc["alloc_fault"] = rw.choice([1, 1, 2])        # NumPy world: an injected MemoryError in the segment gather of a first call
     # history inside one process: the same (L, omega) first analysed in auto mode, then in cross mode
     if mode == "csd" and rw.random() < 0.4:
         sc["auto_first"] = True
@@ -263,6 +265,26 @@ def _execute_stage(sc, out, x, y, stage):
     for ws in sc["worlds"]:
         world = ws["world"]
         site_w = {"sim-numba": "numba", "real-numba": "numba", "numpy": "numpy", "sim-cuda": "cuda"}[world]
+        if world == "numpy" and sc.get("alloc_fault") and sc["via"] == "kernel":
+            x0 = x.copy()
+            y0 = None if y is None else y.copy()
+            with W.AllocFault() as af:
+                af.arm(sc["alloc_fault"])
+                try:
+                    rf_, _ = W.run_kernel(ws, sc["mode"], sc["order"], x, y, starts, L, w, omega)
+                    out.count("alloc_fault_survived_by_library")
+                    for nm, g_, r_, tol in zip(names, rf_, ref, tols):
+                        if af.fired and not (abs(g_ - r_) <= tol):
+                            out.violate("stat_differs_from_definition:after_alloc_fault", f"backend=numpy mode={sc['mode']} order={sc['order']} stat={nm}",
+                                        f"stage {stage}: a call that met an injected MemoryError returned {g_!r}, definition gives {r_!r}")
+                            break
+                except MemoryError:
+                    out.count("alloc_fault_fired_and_propagated")
+            if not np.array_equal(x, x0) or (y is not None and not np.array_equal(y, y0)):
+                out.violate("record_modified", f"backend=numpy order={sc['order']}", f"stage {stage}: the caller's record changed during a call that met an injected MemoryError")
+                x[:] = x0
+                if y is not None:
+                    y[:] = y0
         try:
             if sc.get("auto_first") and y is not None:
                 # auto-spectral call with the same (starts, L, window, omega) first; its own result is checked too
